@@ -101,6 +101,54 @@ var compRanges = map[string]intInfo{}
 // compRefs: heap components whose values are object identities (typing invariant: every identity stored in
 // the heap was allocated no later than the component version was created).
 var compRefs = map[string]bool{}
+
+// compDyn: heap components whose values are pointers to a struct type: the dynamic type tag of every non-nil value
+// stored there is that struct type (dyn(ref) == structTypeID).
+var compDyn = map[string]int{}
+
+var structTypeIDs = map[string]int{}
+
+// structTypeID numbers struct types (1, 2, …); 0 is "not a struct object".
+func structTypeID(t types.Type) int {
+	k := typeKey(types.Unalias(t))
+	if id, ok := structTypeIDs[k]; ok {
+		return id
+	}
+	id := len(structTypeIDs) + 1
+	structTypeIDs[k] = id
+	return id
+}
+
+// dynOfSlot: the dynamic type tag of the non-nil values a reference slot can hold: the struct type id for a pointer to
+// a struct, 0 for slice backings, maps, channels and cells; unknown (false) for interface payloads and unsafe pointers.
+func dynOfSlot(sl Slot) (int, bool) {
+	if !sl.Ref || strings.HasSuffix(sl.Suffix, "#val") || sl.T == nil {
+		return 0, false
+	}
+	if et, ok := ptrStructElem(sl.T); ok {
+		return structTypeID(et), true
+	}
+	switch classify(sl.T) {
+	case KPtrCell, KMap, KChan, KSlice:
+		return 0, true
+	}
+	return 0, false
+}
+
+// ptrStructElem: the struct type a pointer type points to, if any.
+func ptrStructElem(t types.Type) (types.Type, bool) {
+	if t == nil {
+		return nil, false
+	}
+	pt, ok := types.Unalias(t).Underlying().(*types.Pointer)
+	if !ok {
+		return nil, false
+	}
+	if classify(pt.Elem()) != KStruct {
+		return nil, false
+	}
+	return pt.Elem(), true
+}
 var layoutUnit = NewUnit("layout", ModeInt, nil)
 
 func regRange(name string, t types.Type, suffix string) string {
@@ -117,6 +165,9 @@ func regRange(name string, t types.Type, suffix string) string {
 		}
 		if sl.Suffix == suffix && sl.Ref {
 			compRefs[name] = true
+			if tid, ok := dynOfSlot(sl); ok {
+				compDyn[name] = tid
+			}
 		}
 	}
 	return name
